@@ -198,8 +198,9 @@ class MessageDispatcher(ClientMessageSink):
 
     if timeout:
       # Calculate the deadline for this method call.
-      # Reduce it by the time it took for the open() to complete.
-      deadline = start_time + timeout - open_latency
+      # start_time was taken before waiting for open(), so the time spent
+      # waiting is already part of it.
+      deadline = start_time + timeout
     else:
       deadline = None
 
